@@ -239,7 +239,20 @@ def convert_ellipsis_to_idx(
         idx = (...,)
 
     num_ellipsis = sum(_idx is Ellipsis for _idx in idx)
-    if num_dims < (len(idx) - num_ellipsis - sum(item is None for item in idx)):
+    # a boolean mask with n dims indexes n dims at once
+    num_extra_dims = sum(
+        item.ndim - 1
+        for item in idx
+        if isinstance(item, (torch.Tensor, np.ndarray))
+        and item.dtype in (torch.bool, np.dtype("bool"))
+        and item.ndim > 1
+    )
+    if num_dims < (
+        len(idx)
+        + num_extra_dims
+        - num_ellipsis
+        - sum(item is None for item in idx)
+    ):
         raise RuntimeError("Not enough dimensions in TensorDict for index provided.")
 
     start_pos, after_ellipsis_length = None, 0
@@ -259,7 +272,12 @@ def convert_ellipsis_to_idx(
     if start_pos is None:
         return idx
     else:
-        ellipsis_length = num_dims - after_ellipsis_length - before_ellipsis_length
+        ellipsis_length = (
+            num_dims
+            - after_ellipsis_length
+            - before_ellipsis_length
+            - num_extra_dims
+        )
 
     new_index += idx[:start_pos]
 
@@ -269,7 +287,7 @@ def convert_ellipsis_to_idx(
 
     new_index += idx[start_pos + 1 : start_pos + 1 + after_ellipsis_length]
 
-    if len(new_index) != num_dims:
+    if len(new_index) + num_extra_dims != num_dims:
         raise RuntimeError(
             f"The new index {new_index} is incompatible with the dimensions of the batch size {num_dims}."
         )
